@@ -129,7 +129,7 @@ func ruleCacheMiddleware(c *Ctx, a *serverAnchors, want map[string]bool) {
 		t.Type = ca.fStatus.Type()
 		return t
 	}
-	sim := c.P.Simulate(fn, SimConfig{Inline: inlineNested(fn), PanicAtDyncall: true}, func(pr *PathResult) {
+	sim := c.P.Simulate(fn, SimConfig{Inline: orHelpers(fn, inlineNested(fn)), PanicAtDyncall: true}, func(pr *PathResult) {
 		n++
 		where := fmt.Sprintf("exit=%s path [%s]", pr.Exit, condString(pr.Conds))
 		var G *Event
@@ -853,7 +853,7 @@ func ruleProxyMiddleware(c *Ctx, a *serverAnchors, want map[string]bool) {
 	fetchingConst := intTerm(ca.stFetching)
 	fetchingConst.Type = ca.fStatus.Type()
 	newResp := c.P.Func("cache", "NewHTTPResponse")
-	sim := c.P.Simulate(fn, SimConfig{Inline: func(callee *ssa.Function, d int) bool { return inPkg(callee, "util") }}, func(pr *PathResult) {
+	sim := c.P.Simulate(fn, SimConfig{}, func(pr *PathResult) {
 		n++
 		where := "path [" + condString(pr.Conds) + "]"
 		if pr.Exit != "return" || len(pr.Results) != 1 {
